@@ -517,7 +517,7 @@ func init() {
 		return in
 	}
 	addCheck(&Check{Flows: []flowOracle{flowTransparent}, ID: "C01", Level: "exploration",
-		Rule:   "two complete products on fresh simulated worlds: (A) content: all sequences of 0-2 (thorough 0-3) extension headers over an 18-shape alphabet (compact/odd-case/repeated names, empty value, %, quotes, separators, UTF-8, bytes >= 0x80, 16 KiB value) x position x 7 body classes (incl. NUL/CR/LF soup, SIP-like body, 4097 B, 60 KiB of all byte values) x Content-Length spelling (and, over UDP, the field omitted: if such a message is relayed it arrives unchanged) x {request to backend, response, request by Route over TCP}; (B) paths: {backend, Route, static route, response by Via} x arrival UDP/TCP x departure UDP/TCP x received/must-record-route/keep-next-hop x 14 Request-URI forms x methods / status codes x header x body x 5 From/To shapes (mixed-case hosts, decorated URIs, tel/urn, addr-spec form; in-dialog so that dialog identifiers are computed); plus three requests pipelined on one TCP connection; plus an environment fault on TCP departures (the proxy's cached connection to the next hop takes 150 bytes of the write, then breaks: what reaches the next hop on the fresh connection is the whole message); the emission is read by the independent reader; second pass: all cases of one configuration class fed into ONE long-lived world; non-trivial = the message was relayed",
+		Rule:   "two complete products on fresh simulated worlds: (A) content: all sequences of 0-2 (thorough 0-3) extension headers over an 18-shape alphabet (compact/odd-case/repeated names, empty value, %, quotes, separators, UTF-8, bytes >= 0x80, 16 KiB value) x position x 7 body classes (incl. NUL/CR/LF soup, SIP-like body, 4097 B, 60 KiB of all byte values) x Content-Length spelling (incl. blanks between the name and the colon, and, over UDP, the field omitted: if such a message is relayed it arrives unchanged with ONE Content-Length) x {request to backend, response, request by Route over TCP}; (B) paths: {backend, Route, static route, response by Via} x arrival UDP/TCP x departure UDP/TCP x received/must-record-route/keep-next-hop x 14 Request-URI forms x methods / status codes x header x body x 5 From/To shapes (mixed-case hosts, decorated URIs, tel/urn, addr-spec form; in-dialog so that dialog identifiers are computed); plus three requests pipelined on one TCP connection; plus an environment fault on TCP departures (the proxy's cached connection to the next hop takes 150 bytes of the write, then breaks: what reaches the next hop on the fresh connection is the whole message); the emission is read by the independent reader; second pass: all cases of one configuration class fed into ONE long-lived world; non-trivial = the message was relayed",
 		Assume: []string{"well-formed messages of the stated domain (CRLF, single blanks, explicit Content-Length, no folding)"},
 		Run: func(c *Ctx) {
 			c01A.Run(c)
